@@ -40,6 +40,7 @@ type Cex struct {
 	Msg        string              `json:"msg,omitempty"`
 	Trace      []string            `json:"trace,omitempty"`
 	Extra      map[string][]string `json:"extra,omitempty"`
+	Open       bool                `json:"open,omitempty"` // no native replay possible: the path is the witness
 }
 
 type NondetOut struct {
@@ -339,7 +340,7 @@ func (e *Engine) shrinkModel(st *State, extra []*Term, vals map[int]uint64) map[
 }
 
 func (e *Engine) buildCex(st *State, o *ObligationResult, vals map[int]uint64, where, msg string, extra []*Term) *Cex {
-	c := &Cex{Obligation: o.ID, Kind: o.Kind, Site: where, Harness: e.harness, Msg: msg, Tags: map[string]uint64{}}
+	c := &Cex{Obligation: o.ID, Kind: o.Kind, Site: where, Harness: e.harness, Msg: msg, Tags: map[string]uint64{}, Open: st.nonReplayable}
 	val := func(t *Term) uint64 {
 		if t.IsConst() {
 			return t.k
@@ -917,6 +918,9 @@ func (e *Engine) doReturn(st *State, f *Frame, x *ssa.Return) int {
 func (e *Engine) popFrame(st *State, f *Frame, res Value) int {
 	st.frames = st.frames[:len(st.frames)-1]
 	if len(st.frames) == 0 {
+		if st.par != nil {
+			return e.parThreadDone(st)
+		}
 		st.finished = true
 		return stDone
 	}
